@@ -1528,6 +1528,18 @@ def m_numint_from_str(ex, m, args, callee):
     chars = parse_digits(ex, s, radix, 'BigInt::from_str_radix')
     # num-bigint: optional sign, then digits; '_' allowed between digits (not leading)
     cs = list(chars)
+    # num-bigint 0.4: '_' between digits is skipped, a leading '_' (after the sign) is rejected
+    body = cs[1:] if (cs and is_conc(cs[0]) and cs[0] in (43, 45)) else cs
+    if body and is_conc(body[0]) and body[0] == 95:
+        return err(Opaque('ParseBigIntError'))
+    kept = []
+    for c in cs:
+        if is_conc(c):
+            if c != 95:
+                kept.append(c)
+        elif not ex.branch(n_eq(c, 95), 'char is an underscore'):
+            kept.append(c)
+    cs = kept
     valid, v = horner(ex, cs, radix, True)
     if ex.branch(valid, 'bigint digits valid'):
         return ok(v)
@@ -1766,6 +1778,47 @@ def m_map_get(ex, m, args, callee):
     return some(ex, Ref(r.cell, r.path + (('v', fk),)))
 
 
+class EntryV:
+    is_model = True
+
+    def __init__(self, mapref, fk, keyval):
+        self.mapref = mapref
+        self.fk = fk
+        self.keyval = keyval
+
+    def dup(self):
+        return self
+
+
+@model(r'^(BTreeMap|HashMap)::entry$')
+def m_map_entry(ex, m, args, callee):
+    r = innermost_ref(args[0])
+    map_of(r)
+    return EntryV(r, freeze(args[1]), args[1])
+
+
+@model(r'^Entry::(or_insert|or_insert_with|or_default|and_modify)$')
+def m_entry(ex, m, args, callee):
+    e = val(args[0])
+    mp = load(e.mapref)
+    k = m.group(1)
+    ent = mp.ent.get(e.fk)
+    present = ent[1] if ent is not None else False
+    if k == 'and_modify':
+        if ex.branch(present, 'entry present'):
+            ex.call_value(args[1], [Ref(e.mapref.cell, e.mapref.path + (('v', e.fk),))])
+        return e
+    if not ex.branch(present, 'entry present'):
+        if k == 'or_insert':
+            v = args[1]
+        elif k == 'or_insert_with':
+            v = ex.call_value(args[1], [])
+        else:
+            v = 0
+        mp.ent[e.fk] = [e.keyval, True, v]
+    return Ref(e.mapref.cell, e.mapref.path + (('v', e.fk),))
+
+
 @model(r'^(BTreeMap|HashMap|BTreeSet|HashSet)::(len|is_empty)$')
 def m_map_len(ex, m, args, callee):
     mp = map_of(args[0])
@@ -1971,7 +2024,7 @@ def m_vec_new(ex, m, args, callee):
     return Arr([])
 
 
-@model(r'^Vec::(push|pop|len|is_empty|clear|first|last|iter|remove|insert|as_slice|truncate|reverse|extend_from_slice|get|first_mut|last_mut|iter_mut|swap_remove|drain)$|^<impl \[.*\]>::(len|is_empty|first|last|iter|get|iter_mut|reverse|to_vec|into_vec|contains|first_mut|last_mut|split_first|join|concat)$')
+@model(r'^Vec::(push|pop|len|is_empty|clear|first|last|iter|remove|insert|as_slice|truncate|reverse|extend_from_slice|get|first_mut|last_mut|iter_mut|swap_remove|drain)$|^<impl \[.*\]>::(len|is_empty|first|last|iter|get|iter_mut|reverse|to_vec|into_vec|contains|first_mut|last_mut|split_first|join|concat|chunks|windows|chunks_exact)$')
 def m_vec(ex, m, args, callee):
     k = m.group(1) or m.group(2)
     r = innermost_ref(args[0])
@@ -2031,6 +2084,28 @@ def m_vec(ex, m, args, callee):
         for f in v.fields:
             c = b_or(c, eq_dispatch(ex, f, args[1]))
         return c
+    if k in ('chunks', 'windows', 'chunks_exact'):
+        size = ex.concretize_int(args[1], k + ' size')
+        if size == 0:
+            ex.panic('%s: size must be non-zero' % k)
+        refs = [Ref(r.cell, r.path + (i,)) for i in range(n)]
+        groups = []
+        if k == 'windows':
+            for i in range(0, n - size + 1):
+                groups.append(Arr([load(x) for x in refs[i:i + size]]))
+        else:
+            for i in range(0, n, size):
+                g = refs[i:i + size]
+                if k == 'chunks_exact' and len(g) < size:
+                    break
+                groups.append(Arr([load(x) for x in g]))
+        return VecIter([Ref(Cell(g, 'chunk')) for g in groups])
+    if k in ('join', 'concat'):
+        items = [val(f) for f in v.fields]
+        sep = val(args[1]) if len(args) > 1 else ''
+        if all(isinstance(i, str) for i in items) and isinstance(sep, str):
+            return sep.join(items)
+        return Opaque('string', 'joined')
     raise Unmodelled('Vec::' + k)
 
 
